@@ -42,6 +42,9 @@ type Conn struct {
 	gated      bool  // when true Write blocks until credit > 0
 	credit     int   // writes allowed while gated
 
+	wdeadline time.Time // write deadline set by the client (zero: none)
+	partial   bool      // a Write that hits its deadline while the server is not reading reports a short write
+
 	closed      bool // client called Close
 	closeCalls  int
 	onWrite     func(data string) // optional callback, called outside the lock
@@ -90,6 +93,13 @@ func (c *Conn) Read(p []byte) (int, error) {
 	}
 }
 
+// errTimeout is what a Write returns when its deadline passes (a net.Error with Timeout() == true).
+type errTimeout struct{}
+
+func (errTimeout) Error() string   { return "ircsim: i/o timeout" }
+func (errTimeout) Timeout() bool   { return true }
+func (errTimeout) Temporary() bool { return true }
+
 func (c *Conn) Write(p []byte) (int, error) {
 	c.mu.Lock()
 	for {
@@ -104,6 +114,26 @@ func (c *Conn) Write(p []byte) (int, error) {
 		}
 		if !c.gated || c.credit > 0 {
 			break
+		}
+		if !c.wdeadline.IsZero() {
+			// the peer is not reading and the client has set a write deadline: like a TCP socket whose
+			// send buffer took part of the data, report a short write when the deadline passes
+			if d := time.Until(c.wdeadline); d <= 0 {
+				n := 0
+				if c.partial && len(p) > 1 {
+					n = len(p) / 2
+					s := string(p[:n])
+					c.writes = append(c.writes, WriteRec{Data: s, At: time.Now()})
+					c.wbytes.WriteString(s)
+				}
+				c.mu.Unlock()
+				return n, errTimeout{}
+			} else {
+				t := time.AfterFunc(d, func() { c.mu.Lock(); c.cond.Broadcast(); c.mu.Unlock() })
+				c.cond.Wait()
+				t.Stop()
+				continue
+			}
 		}
 		c.cond.Wait()
 	}
@@ -150,9 +180,22 @@ func (a addr) String() string  { return string(a) }
 
 func (c *Conn) LocalAddr() net.Addr                { return addr("client") }
 func (c *Conn) RemoteAddr() net.Addr               { return addr("server") }
-func (c *Conn) SetDeadline(t time.Time) error      { return nil }
-func (c *Conn) SetReadDeadline(t time.Time) error  { return nil }
-func (c *Conn) SetWriteDeadline(t time.Time) error { return nil }
+func (c *Conn) SetDeadline(t time.Time) error     { return c.SetWriteDeadline(t) }
+func (c *Conn) SetReadDeadline(t time.Time) error { return nil }
+func (c *Conn) SetWriteDeadline(t time.Time) error {
+	c.mu.Lock()
+	c.wdeadline = t
+	c.cond.Broadcast()
+	c.mu.Unlock()
+	return nil
+}
+
+// PartialWrites makes a Write that times out report that half of its data was taken.
+func (c *Conn) PartialWrites(on bool) {
+	c.mu.Lock()
+	c.partial = on
+	c.mu.Unlock()
+}
 
 // ---- server-side scripting ----
 
